@@ -33,9 +33,9 @@ class G:
 def gen_program(rng, nmin=3, nmax=12, with_comptime=True):
     n = rng.range(nmin, nmax)
     gs = []
-    kinds = ["const", "const", "cexpr", "func", "func", "struct", "distinct", "usz", "array", "generic_t", "generic_k"]
+    kinds = ["const", "const", "cexpr", "func", "func", "func_s", "struct", "distinct", "usz", "array", "generic_t", "generic_k"]
     if with_comptime:
-        kinds += ["comptime", "cexpr"]
+        kinds += ["comptime", "cexpr", "tgen", "tinst", "tval", "tval"]
 
     def of(kind):
         return [g for g in gs if g.kind in kind]
@@ -51,8 +51,12 @@ def gen_program(rng, nmin=3, nmax=12, with_comptime=True):
         for g in of(("const", "cexpr", "comptime")):
             c.append(("val", g))
         if not const_only or True:
+            for g in of(("tval",)):
+                c.append(("tval", g))
             for g in of(("func",)):
                 c.append(("call", g))
+            for g in of(("func_s",)):
+                c.append(("calls", g))
             for g in of(("generic_t",)):
                 c.append(("gt", g))
             for g in of(("generic_k",)):
@@ -65,9 +69,13 @@ def gen_program(rng, nmin=3, nmax=12, with_comptime=True):
         deps.add(g.name)
         if k == "val":
             return ref(g)
+        if k == "tval":
+            return g.meta["expr"]
         arg = "x" if (in_func and rng.chance(1, 2)) else str(rng.range(1, 4))
         if k == "call":
             return "%s(%s)" % (ref(g), arg)
+        if k == "calls":
+            return "%s(%s, %s)" % (ref(g), value_of(g.meta["t"], deps), arg)
         if k == "gt":
             return "%s(i32, %s)" % (ref(g), arg)
         ks = of(("const",))
@@ -146,6 +154,43 @@ def gen_program(rng, nmin=3, nmax=12, with_comptime=True):
                 u = rng.choice(us)
                 deps.add(u.name)
                 g = G("A%d" % i, kind, "A%d :: [%s]i32;" % (i, ref(u)), deps, {"n": u.meta["v"]})
+        elif kind == "tval":
+            # a global constant annotated with a user-defined type (distinct / struct / array)
+            cands = [t for t in of(("distinct", "array"))] + [t for t in of(("struct",)) if first_i32_path(t)]
+            if not cands:
+                g = G("D%d" % i, "distinct", "D%d :: distinct i32;" % i, deps)
+            else:
+                t = rng.choice(cands)
+                deps.add(t.name)
+                if t.kind == "distinct":
+                    g = G("d%d" % i, kind, "d%d : %s : comptime { %s.(%d) };" % (i, ref(t), ref(t), rng.range(1, 9)), deps,
+                          {"expr": "i32.({d%d})" % i})
+                elif t.kind == "array":
+                    vals = ", ".join(str(rng.range(1, 9)) for _ in range(t.meta["n"]))
+                    g = G("a%d" % i, kind, "a%d : %s : i32.[%s];" % (i, ref(t), vals), deps, {"expr": "{a%d}[0]" % i})
+                else:
+                    g = G("s%d" % i, kind, "s%d : %s : comptime { %s };" % (i, ref(t), value_of(t, deps)), deps,
+                          {"expr": "{s%d}.%s" % (i, first_i32_path(t))})
+        elif kind == "tgen":
+            g = G("B%d" % i, kind, "B%d :: (comptime T: type) -> type {\n    struct { v: T, w: i32 }\n}" % i, deps)
+        elif kind == "tinst":
+            bs = of(("tgen",))
+            if not bs:
+                g = G("B%d" % i, "tgen", "B%d :: (comptime T: type) -> type {\n    struct { v: T, w: i32 }\n}" % i, deps)
+            else:
+                b = rng.choice(bs)
+                deps.add(b.name)
+                g = G("T%d" % i, "struct", "T%d :: comptime %s(i32);" % (i, ref(b)), deps, {"fields": [("v", None), ("w", None)]})
+        elif kind == "func_s":
+            ss = of(("struct",))
+            if not ss:
+                g = G("c%d" % i, "const", "c%d : i32 : %d;" % (i, rng.range(1, 20)), deps)
+            else:
+                t = rng.choice(ss)
+                deps.add(t.name)
+                pth = first_i32_path(t)
+                e = expr(deps, True, 1)
+                g = G("f%d" % i, kind, "f%d :: (s: %s, x: i32) -> i32 {\n    %s%s\n}" % (i, ref(t), e, (" + s." + pth) if pth else ""), deps, {"t": t})
         elif kind == "generic_t":
             g = G("g%d" % i, kind, "g%d :: (comptime T: type, x: T) -> T { x }" % i, deps)
         elif kind == "generic_k":
@@ -172,6 +217,15 @@ def gen_program(rng, nmin=3, nmax=12, with_comptime=True):
             g = G("f%d" % i, kind, "f%d :: (x: i32) -> i32 {\n%s\n}" % (i, "\n".join(body)), deps)
         g.deps = sorted(deps)
         gs.append(g)
+    # forward and mutual references between functions: a guarded call that is type-checked but never
+    # executed (arguments stay small), so that function bodies depend on LATER globals as well
+    fs = [g for g in gs if g.kind == "func"]
+    for a in fs:
+        later = [b for b in fs if b is not a]
+        if later and rng.chance(1, 2):
+            b = rng.choice(later)
+            a.text = a.text.replace(") -> i32 {\n", ") -> i32 {\n    if x > 1000 {\n        return {%s}(x - 2000);\n    }\n    guard_ := x;\n" % b.name, 1)
+            a.deps = sorted(set(a.deps) | {b.name})
     # main prints every value-like global
     prints = []
     mdeps = set()
@@ -182,6 +236,11 @@ def gen_program(rng, nmin=3, nmax=12, with_comptime=True):
             prints.append("{%s}" % g.name)
         elif g.kind == "func":
             prints.append("{%s}(%d)" % (g.name, rng.range(1, 5)))
+        elif g.kind == "tval":
+            prints.append(g.meta["expr"])
+        elif g.kind == "func_s":
+            d = set()
+            prints.append("{%s}(%s, %d)" % (g.name, value_of(g.meta["t"], d), rng.range(1, 5)))
         elif g.kind == "generic_t":
             prints.append("{%s}(i32, %d)" % (g.name, rng.range(1, 9)))
         elif g.kind == "generic_k":
@@ -264,13 +323,89 @@ def variants(rng, gs, n_variants, exhaustive_upto=5):
     return vs
 
 
-def build_and_run(capy, files):
+FN_KINDS = ("func", "func_s", "generic_k", "generic_t")
+
+
+def fn_cycle(gs):
+    """True iff the call graph among the function-like globals has a cycle (mutual recursion)."""
+    fn = {g.name: [d for d in g.deps] for g in gs if g.kind in FN_KINDS}
+    state = {}
+
+    def visit(n):
+        if state.get(n) == 1:
+            return True
+        if state.get(n) == 2:
+            return False
+        state[n] = 1
+        for d in fn.get(n, []):
+            if d in fn and visit(d):
+                return True
+        state[n] = 2
+        return False
+
+    return any(visit(n) for n in list(fn))
+
+
+def dep_cycle(gs):
+    """True iff the reference graph among ALL globals (incl. the guarded, never executed calls)
+    has a cycle, e.g. const -> function -> (guarded call) function -> const."""
+    gr = {g.name: list(g.deps) for g in gs}
+    state = {}
+
+    def visit(n):
+        if state.get(n) == 1:
+            return True
+        if state.get(n) == 2:
+            return False
+        state[n] = 1
+        for d in gr.get(n, []):
+            if d in gr and visit(d):
+                return True
+        state[n] = 2
+        return False
+
+    return any(visit(n) for n in list(gr))
+
+
+def known_class(gs, base, r):
+    """Narrow syntactic classes of recorded defects (known_findings.d/C20.json)."""
+    pair = sorted([base[0], r[0]])
+    rej = [x for x in (base, r) if x[0] == "rejected"]
+    if (pair == ["accepted", "rejected"] and fn_cycle(gs) and "circular definition" in rej[0][1]
+            and "has not yet been resolved" in rej[0][1]
+            and any(g.kind in ("comptime", "cexpr", "tval", "struct") and "comptime" in g.text for g in gs)):
+        return "order-dependence:mutually-recursive-functions-called-from-comptime"
+    if (pair == ["accepted", "rejected"] and not fn_cycle(gs) and dep_cycle(gs) and "circular definition" in rej[0][1]
+            and "has not yet been resolved" in rej[0][1]):
+        return "order-dependence:reference-cycle-through-comptime-constant"
+    kinds = {g.kind for g in gs}
+    has_tinst = any(g.kind == "struct" and " :: comptime " in g.text for g in gs)
+    has_generic_fn = bool(kinds & {"generic_t", "generic_k"})
+    crash = [x for x in (base, r) if x[0] == "CRASH"]
+    other = [x for x in (base, r) if x[0] != "CRASH"]
+    if (len(crash) == 1 and other and other[0][0] == "accepted" and has_tinst and has_generic_fn
+            and "these shouldn't get to codegen" in crash[0][1] and "comptime compilation panicked" in crash[0][1]):
+        return "order-dependence:comptime-type-instantiation-before-generic-fn-use-crashes"
+    return None
+
+
+def run_jobs(capy, file_sets):
+    """build_and_run in parallel; anything that looked like a hang is re-run alone with a long
+    timeout (on a loaded machine a 120 s timeout is not evidence of a hang)."""
+    res = C.parallel_map(lambda f: build_and_run(capy, f), file_sets)
+    for k, r in enumerate(res):
+        if r[0].startswith("HANG") or r[1] == "HANG-run":
+            res[k] = build_and_run(capy, file_sets[k], compile_timeout=1500, run_timeout=300)
+    return res
+
+
+def build_and_run(capy, files, compile_timeout=120, run_timeout=20):
     with C.scratch("verif-c20-") as d:
         for name, text in files:
             open(os.path.join(d, name), "w").write(text)
         try:
             p = subprocess.run([capy, "build", "main.capy", "--mod-dir", C.REPO], cwd=d, stdout=subprocess.PIPE,
-                               stderr=subprocess.STDOUT, timeout=120)
+                               stderr=subprocess.STDOUT, timeout=compile_timeout)
         except subprocess.TimeoutExpired:
             return ("HANG-compile", "", None)
         exe = os.path.join(d, "out", "main")
@@ -278,9 +413,12 @@ def build_and_run(capy, files):
             out = p.stdout.decode("utf-8", "replace")
             errs = sorted({l.strip() for l in out.split("\n") if l.startswith("error")})
             crashed = ("panicked" in out) or p.returncode not in (0, 1)
-            return ("CRASH" if crashed else "rejected", "|".join(errs)[:600], p.returncode)
+            lines = out.split("\n")
+            pan = [(lines[i].strip() + " " + (lines[i + 1].strip() if i + 1 < len(lines) else ""))
+                   for i in range(len(lines)) if "panicked at" in lines[i]]
+            return ("CRASH" if crashed else "rejected", "|".join(pan[:1] + errs)[:600], p.returncode)
         try:
-            r = subprocess.run([exe], cwd=d, stdout=subprocess.PIPE, stderr=subprocess.STDOUT, timeout=20)
+            r = subprocess.run([exe], cwd=d, stdout=subprocess.PIPE, stderr=subprocess.STDOUT, timeout=run_timeout)
         except subprocess.TimeoutExpired:
             return ("accepted", "HANG-run", None)
         return ("accepted", r.stdout.decode("utf-8", "replace"), r.returncode)
@@ -307,6 +445,198 @@ def trace_programs(rng, n):
     return out
 
 
+
+# ----------------------------------------------------------------------------------
+# Hypothesis stream: the observable part of H_done / H_needs / H_det on the real checker,
+# through the TopoSort call trace hook of hir_ty::InferenceCtx::finish (harness h_c26 front).
+def parse_named_trace(line):
+    """-> dict(names={id: stable name}, rounds=[(is_cyc, [(x, None | [(dep, flag)])])], complete=bool)"""
+    groups = [g.split() for g in line.split(";") if g.strip()]
+    names, rounds, cyc, complete = {}, [], False, False
+    for g in groups:
+        t = g[0]
+        if t == "C":
+            cyc = True
+        elif t == "L":
+            rounds.append((cyc, []))
+            cyc = False
+        elif t == "R" and rounds:
+            rounds[-1][1].append((g[1], None))
+        elif t == "D" and rounds:
+            rounds[-1][1].append((g[1], list(zip(g[2::2], g[3::2]))))
+        elif t == "E":
+            complete = True
+        elif t == "N":
+            for kv in g[1:]:
+                k, _, v = kv.partition("=")
+                pre = "L:" if v.startswith("L:") else ""
+                v = v[2:] if pre else v
+                base = v.split("::", 1)[1] if "::" in v else v
+                names[k] = pre + base + ("'" if k.endswith("'") else "")
+    return {"names": names, "rounds": rounds, "complete": complete}
+
+
+def check_trace_hypotheses(tr):
+    """(a),(b) on one trace. Returns (violations, completion index by id, cyc-completed ids, edges by id)"""
+    viol = []
+    done, requested, comp, cyc_done, edges = set(), {}, {}, set(), set()
+    k = 0
+    for is_cyc, evs in tr["rounds"]:
+        for x, ds in evs:
+            k += 1
+            if ds is None:
+                if not is_cyc:
+                    open_ = [d for d in requested.get(x, []) if d not in done]
+                    if open_:
+                        viol.append(("completed-with-unfinished-dep", x, open_))
+                else:
+                    cyc_done.add(x)
+                done.add(x)
+                comp[x] = k
+            else:
+                for d, flag in ds:
+                    edges.add((x, d))
+                    requested.setdefault(x, []).append(d)
+                    if flag == "1" or d in done:
+                        viol.append(("requested-finished-dep", x, [d]))
+    return viol, comp, cyc_done, edges
+
+
+def hypothesis_stream(fl, har, rng, n_prog, n_var):
+    from . import c26
+    v = fl.v
+    progs, jobs = [], []
+    for pi in range(n_prog):
+        gs, prints = gen_program(rng)
+        vs = variants(rng, gs, n_var)
+        progs.append((gs, prints, vs))
+        for vi, (order, pl) in enumerate(vs):
+            jobs.append(("p%dv%d" % (pi, vi), render(gs, prints, order, pl, use_core=False)))
+    traces, died = c26.front_traces(har, jobs, eval_comptime=True)
+    files_of = dict(jobs)
+    by_prog = {}
+    for label, line in traces:
+        pi, vi = label[1:].split("v")
+        by_prog.setdefault(int(pi), {}).setdefault(int(vi), []).append(line)
+    st = {"programs": n_prog, "variants": len(jobs), "front_end_died_or_hung": died, "traces": len(traces),
+          "requests": 0, "completions": 0, "cycle_rounds": 0, "edge_sets_differ_between_orders": 0,
+          "cross_order_edge_checks": 0}
+    skip = set(ALIAS) | {"L:?"}
+    for pi, per_var in sorted(by_prog.items()):
+        infos = {}
+        for vi, lines in sorted(per_var.items()):
+            # the main finish() call is the longest trace of the run (comptime blocks start nested runs)
+            tr = parse_named_trace(max(lines, key=len))
+            if not tr["complete"] or not tr["names"]:
+                continue
+            viol, comp, cyc_done, edges = check_trace_hypotheses(tr)
+            st["requests"] += len(edges)
+            st["completions"] += len(comp)
+            ncyc = sum(1 for c, _ in tr["rounds"] if c)
+            st["cycle_rounds"] += ncyc
+            label = "p%dv%d" % (pi, vi)
+            for kind, x, ds in viol:
+                v.failing("hyp:%s" % kind, {"key": "hyp:%s:%s" % (kind, label), "files": dict(files_of[label]),
+                                             "item": tr["names"].get(x, x), "deps": [tr["names"].get(d, d) for d in ds],
+                                             "explanation": "the real inference step violates a hypothesis of C20_schedule_confluent "
+                                                            "(observed through the TopoSort call trace)"})
+            if ncyc and dep_cycle(progs[pi][0]):
+                st["cycle_rounds_in_mutually_recursive_programs"] = st.get("cycle_rounds_in_mutually_recursive_programs", 0) + ncyc
+            elif ncyc:
+                v.failing("hyp:cycle-round-in-acyclic-program",
+                          {"key": "hyp:cyc:%s" % label, "files": dict(files_of[label]),
+                           "explanation": "generated program has an acyclic dependency graph but finish() ran a cycle-breaking round"})
+            nm = tr["names"]
+            count = {}
+            for i, n in nm.items():
+                count[n] = count.get(n, 0) + 1
+            uniq = {i: n for i, n in nm.items() if count[n] == 1 and n not in skip}
+            infos[vi] = {"comp": {uniq[i]: k for i, k in comp.items() if i in uniq},
+                         "cyc": {uniq[i] for i in cyc_done if i in uniq},
+                         "edges": {(uniq[a], uniq[b]) for a, b in edges if a in uniq and b in uniq},
+                         "finished": {uniq[i] for i in comp if i in uniq}}
+        if len(infos) < 2:
+            continue
+        union = set()
+        for inf in infos.values():
+            union |= inf["edges"]
+        base_vi = min(infos)
+        if any(inf["edges"] != infos[base_vi]["edges"] for inf in infos.values()):
+            st["edge_sets_differ_between_orders"] += 1
+        for vi, inf in infos.items():
+            label = "p%dv%d" % (pi, vi)
+            if inf["finished"] != infos[base_vi]["finished"]:
+                v.failing("hyp:finished-set-differs",
+                          {"key": "hyp:fin:%s" % label, "base_files": dict(files_of["p%dv%d" % (pi, base_vi)]),
+                           "variant_files": dict(files_of[label]),
+                           "only_in_base": sorted(infos[base_vi]["finished"] - inf["finished"]),
+                           "only_in_variant": sorted(inf["finished"] - infos[base_vi]["finished"])})
+            for (x, d) in union:
+                if x in inf["comp"] and d in inf["comp"] and x not in inf["cyc"]:
+                    st["cross_order_edge_checks"] += 1
+                    if not inf["comp"][d] < inf["comp"][x]:
+                        v.failing("hyp:order-dependent-deps",
+                                  {"key": "hyp:dep:%s:%s:%s" % (label, x, d), "variant_files": dict(files_of[label]),
+                                   "item": x, "dep": d,
+                                   "explanation": "in another definition order this item requested this dependency, but in this "
+                                                  "order it completed before the dependency was finished: its result is not a "
+                                                  "function of its dependencies' results"})
+    v.coverage["evaluations"] += st["traces"]
+    v.coverage["hypothesis_stream"] = st
+    fl.streams["H: inference-step hypotheses observed on real traces (a: complete only when requested deps finished, "
+               "b: requests are unfinished, c: cross-order dependency consistency)"] = {"cases": st["traces"], "diffs": 0}
+    if st["traces"] < len(jobs) // 2:
+        fl.broken.append({"what": "C20 hypothesis stream: fewer than half of the runs produced a trace (hook missing?)",
+                          "traces": st["traces"], "runs": len(jobs)})
+
+
+# minimised regression inputs (always run first): (name, definitions, order A, order B)
+CORPUS = [
+    ("comptime-type-instantiation-before-generic-fn-use",
+     {"g": "g0 :: (comptime T: type, x: T) -> T { x }",
+      "B": "B2 :: (comptime T: type) -> type {\n    struct { v: T, w: i32 }\n}",
+      "T": "T6 :: comptime B2(i32);",
+      "c": "c7 : i32 : comptime { g0(i32, 2) };",
+      "m": "main :: () {\n    core.println(c7);\n}"},
+     "gBcTm", "gBTcm"),
+    ("mutually-recursive-functions-called-from-comptime",
+     {"1": "f1 :: (x: i32) -> i32 {\n    if x > 1000 {\n        return f8(x - 2000);\n    }\n    x + 1\n}",
+      "8": "f8 :: (x: i32) -> i32 {\n    if x > 1000 {\n        return f1(x - 2000);\n    }\n    x\n}",
+      "k": "k3 :: comptime {\n    f1(2)\n};",
+      "m": "main :: () {\n    core.println(k3);\n}"},
+     "18km", "k18m"),
+    ("reference-cycle-through-comptime-constant",
+     {"1": "f1 :: (x: i32) -> i32 {\n    if x > 1000 {\n        return f4(x - 2000);\n    }\n    4 - x\n}",
+      "c": "c3 : i32 : comptime { f1(3) };",
+      "4": "f4 :: (x: i32) -> i32 {\n    3 - c3\n}",
+      "m": "main :: () {\n    core.println(c3);\n    core.println(f4(1));\n}"},
+     "1c4m", "c14m"),
+]
+
+
+def corpus_stream(fl, capy):
+    v = fl.v
+    jobs = []
+    for name, defs, oa, ob in CORPUS:
+        for o in (oa, ob):
+            jobs.append([("main.capy", 'core :: #mod("core");\n' + "\n".join(defs[k] for k in o) + "\n")])
+    res = run_jobs(capy, jobs)
+    for k, (name, defs, oa, ob) in enumerate(CORPUS):
+        a, b = res[2 * k], res[2 * k + 1]
+        v.coverage["evaluations"] += 1
+        if a != b:
+            gs = [G("x", "struct" if " :: comptime " in t else ("generic_t" if "comptime T: type, x" in t else "other"), t, [])
+                  for t in defs.values()]
+            if "c3" in defs.get("c", ""):
+                gs = [G("f1", "func", defs["1"], ["f4"]), G("f4", "func", defs["4"], ["c3"]), G("c3", "cexpr", defs["c"], ["f1"])]
+            elif "f1" in "".join(defs.values()) and "f8" in "".join(defs.values()):
+                gs = [G("f1", "func", defs["1"], ["f8"]), G("f8", "func", defs["8"], ["f1"]), G("k3", "comptime", defs["k"], ["f1"])]
+            cls = known_class(gs, a, b) or ("order-dependence:%s->%s" % (a[0], b[0]))
+            v.failing(cls, {"key": "corpus:%s" % name, "base_files": dict(jobs[2 * k]), "variant_files": dict(jobs[2 * k + 1]),
+                            "base_result": a, "variant_result": b,
+                            "explanation": "same definitions in two orders: acceptance / behaviour differs"})
+
+
 def run(tier, seed):
     fl = Flow("C20", tier, seed, "proof")   # evidence schema has no "partial": see coverage["claim"] and assumptions
     v = fl.v
@@ -314,9 +644,13 @@ def run(tier, seed):
     capy = fl.capy()
     quick = tier == "quick"
     if capy:
+        corpus_stream(fl, capy)
         rng = fl.rng.fork("progs")
-        n_prog = 50 if quick else 500
+        # VERIF_C20_SCALE (default 1) scales the thorough tier down on a heavily loaded machine
+        scale = float(os.environ.get("VERIF_C20_SCALE", "1") or "1")
+        n_prog = 50 if quick else max(50, int(500 * scale))
         n_var = 6 if quick else 12
+        v.coverage["thorough_scale"] = scale
         jobs = []
         progs = []
         for pi in range(n_prog):
@@ -325,7 +659,7 @@ def run(tier, seed):
             progs.append((gs, prints, vs))
             for vi, (order, pl) in enumerate(vs):
                 jobs.append((pi, vi, render(gs, prints, order, pl)))
-        results = C.parallel_map(lambda j: build_and_run(capy, j[2]), jobs)
+        results = run_jobs(capy, [j[2] for j in jobs])
         by_prog = {}
         for (pi, vi, files), r in zip(jobs, results):
             by_prog.setdefault(pi, []).append((vi, files, r))
@@ -353,6 +687,7 @@ def run(tier, seed):
                     diffs += 1
                     order, pl = progs[pi][2][vi]
                     cls = "order-dependence:%s->%s" % (base[0], r[0]) if r[0] != base[0] else "order-dependence:output"
+                    cls = known_class(gs, base, r) or cls
                     v.failing(cls, {"key": "C20:%d:%d" % (pi, vi), "base_files": dict(rs[0][1]), "variant_files": dict(files),
                                     "base_result": base, "variant_result": r, "order": order, "placement": pl,
                                     "explanation": "same globals, different definition order / file partition: "
@@ -368,6 +703,9 @@ def run(tier, seed):
         if accepted < n_prog // 2:
             fl.broken.append({"what": "C20 generator: fewer than half of the generated programs are accepted", "accepted": accepted})
         v.add_samples([{"files": dict(by_prog[0][0][1]), "result": by_prog[0][0][2]}])
+    har = fl.harness("h_c26")
+    if har:
+        hypothesis_stream(fl, har, fl.rng.fork("hyp"), 60 if quick else 1500, 6 if quick else 10)
     v.coverage["claim"] = ("PARTIAL: only the scheduler (finish round loop over TopoSort) is proved order-independent, under "
                            "explicit hypotheses on an abstract inference step; the rest is an end-to-end metamorphic test")
     v.assumptions = [
